@@ -94,19 +94,30 @@ class Canon(object):
         return out
 
     # ---- recursive rewrite -------------------------------------------------------------------------------------------------------------------
-    def visit(self, node, parent=None):
+    SCOPES = (ast.Module, ast.ClassDef, ast.FunctionDef, ast.AsyncFunctionDef, ast.Lambda)
+
+    def visit(self, node, parent=None, scope=None):
+        """scope: the innermost scope node (module / class / function / lambda) that encloses `node`"""
+        inner = node if isinstance(node, self.SCOPES) else scope
+
+        def visit_child(x, p):
+            return self.visit(x, p, inner)
+        return self._visit_fields(node, parent, scope, visit_child)
+
+    def _visit_fields(self, node, parent, scope, visit):
         on = self.on
+        self_visit = visit
         for f in node._fields:
             v = getattr(node, f, None)
             if isinstance(v, list):
                 if v and isinstance(v[0], ast.stmt):
-                    new = [self.visit(x, node) for x in v]
+                    new = [self_visit(x, node) for x in v]
                     fb = isinstance(node, (ast.FunctionDef, ast.AsyncFunctionDef)) and f == 'body'
                     setattr(node, f, self.block(new, node, fb))
                 else:
-                    setattr(node, f, [self.visit(x, node) if isinstance(x, ast.AST) else x for x in v])
+                    setattr(node, f, [self_visit(x, node) if isinstance(x, ast.AST) else x for x in v])
             elif isinstance(v, ast.AST):
-                setattr(node, f, self.visit(v, node))
+                setattr(node, f, self_visit(v, node))
         if isinstance(node, ast.Return) and 'remove_explicit_return_none' in on:
             if isinstance(node.value, ast.Constant) and node.value.value is None:
                 node.value = None
@@ -121,9 +132,11 @@ class Canon(object):
             node.args = node.posonlyargs + node.args
             node.posonlyargs = []
         if isinstance(node, ast.AnnAssign):
-            in_class = isinstance(parent, ast.ClassDef)
+            # a class attribute is an annotated name whose nearest enclosing scope is a class body - also when the statement sits in an
+            # if / try / with / for block of that body (it still lands in the class namespace and in __annotations__)
+            in_class = isinstance(scope, ast.ClassDef)
             opt = 'remove_class_attribute_annotations' if in_class else 'remove_variable_annotations'
-            if opt in on and not (in_class and annotation_sensitive_class(parent)):
+            if opt in on and not (in_class and annotation_sensitive_class(scope)):
                 if node.value is not None:
                     return ast.Assign(targets=[node.target], value=node.value)
                 node.annotation = ast.Constant(value=0)
